@@ -33,7 +33,9 @@ LEVEL = 'exploration'
 
 TOL_POS = 1e-3        # the property's own tolerances: a millimetre ...
 TOL_ANG = 1e-3        # ... and a milliradian
-ROOM_TIMEOUT_S = 60   # a room that takes longer than this is reported as a hang
+ROOM_TIMEOUT_S = 30   # a room that takes longer than this is reported as a hang (normal: < 1 s)
+ROOM_TIMEOUT_AFTER_HANG_S = 5   # ... once a worker has seen one hang, it waits only this long
+_hangs_seen = [0]
 
 # ------------------------------------------------------------------------------------------------
 # LATTICE (all literals; angles in degrees unless stated)
@@ -518,7 +520,8 @@ def run_room(spec, p, verbose=False):
     key = _spec_key(spec)
 
     old = signal.signal(signal.SIGALRM, _alarm)
-    signal.setitimer(signal.ITIMER_REAL, ROOM_TIMEOUT_S)
+    timeout_s = ROOM_TIMEOUT_AFTER_HANG_S if _hangs_seen[0] else ROOM_TIMEOUT_S
+    signal.setitimer(signal.ITIMER_REAL, timeout_s)
     try:
         with warnings.catch_warnings():
             warnings.simplefilter('ignore')
@@ -557,9 +560,10 @@ def run_room(spec, p, verbose=False):
             except Exception as e:  # noqa
                 exc = e
     except _RoomTimeout:
+        _hangs_seen[0] += 1
         p.case(key=key, outcome=('hang', cls))
         p.violation('pipeline:hang:%s' % ('linkable' if linkable else 'unlinkable'),
-                    'room did not finish within %d s: %r' % (ROOM_TIMEOUT_S, spec), spec)
+                    'pipeline did not return within %d s (neither an answer nor an error): %r' % (timeout_s, spec), spec)
         res['verdict'] = 'hang'
         return res
     finally:
